@@ -662,6 +662,8 @@ udp_recv_data(udp_ep *ep, udp_sp_msg *dreq, size_t len, const nng_sockaddr *sa)
 			if (p->npipe != NULL) {
 				nni_pipe_bump_error(p->npipe, NNG_ENOMEM);
 			}
+			// restore the receive buffer to its full size
+			nni_msg_realloc(ep->rx_payload, ep->rcvmax);
 			return;
 		}
 		nni_msg_set_address(msg, sa);
@@ -677,6 +679,8 @@ udp_recv_data(udp_ep *ep, udp_sp_msg *dreq, size_t len, const nng_sockaddr *sa)
 			if (p->npipe != NULL) {
 				nni_pipe_bump_error(p->npipe, NNG_ENOMEM);
 			}
+			// restore the receive buffer to its full size
+			nni_msg_realloc(ep->rx_payload, ep->rcvmax);
 			return;
 		}
 
